@@ -278,7 +278,7 @@ Lemma peers_ok_h_unchoke s p : peers_ok s -> peers_ok (fst (h_unchoke s p)).
 Proof.
   intros H. unfold h_unchoke.
   assert (H1 : peers_ok (upd_p s p (fun q => set_choking q false))) by (apply peers_ok_field; [intros q; split; reflexivity|exact H]).
-  destruct (q_dl (get_p s p)) as [d|]; [destruct (l_af d)|]; cbn; auto. apply peers_ok_do_request. exact H1.
+  destruct (q_dl (get_p s p)) as [d|]; [destruct (l_af d)|]; cbn; auto; apply peers_ok_do_request; exact H1.
 Qed.
 Lemma get_upd_same_dl s p f : (forall q, q_dl (f q) = q_dl q) -> q_dl (get_p (upd_p s p f) p) = q_dl (get_p s p).
 Proof.
